@@ -21,6 +21,16 @@ def same(a, b, tol=1e-9):
         return a == b
 
 
+# label alphabets a binary classification stream can legally carry (river decides "positive" by y == pos_val, so anything hashable and
+# comparable is a label; each alphabet was checked to be accepted by fresh river metrics - pairs a fresh metric rejects are skipped anyway)
+BIN_ALPHABETS = [("int01", [0, 1]), ("pm1", [-1, 1]), ("int12", [1, 2]), ("int02", [0, 2]), ("str-ab", ["a", "b"]), ("str-empty-x", ["", "x"]),
+                 ("float01", [0.0, 1.0]), ("np-int01", [np.int64(0), np.int64(1)]), ("np-int12", [np.int32(1), np.int32(2)]),
+                 ("float-pm1", [-1.0, 1.0]), ("str-yes-no", ["no", "yes"])]
+MULTI_ALPHABETS = [("int-neg", [-1, 0, 1]), ("int123", [1, 2, 3]), ("float012", [0.0, 1.0, 2.0]), ("np-int012", [np.int64(0), np.int64(1), np.int64(2)]),
+                   ("str-empty-xy", ["", "x", "y"]), ("bool", [False, True]), ("int02", [0, 2]), ("pm1", [-1, 1]), ("int-4", [0, 1, 2, 7])]
+STRETCH = 20          # calls per stretch; even stretches keep the metric's original alphabet, odd ones walk through the lists above
+
+
 class _Pred(dict):
     """A user's own dict subclass for predictions."""
 
@@ -44,7 +54,7 @@ def gen_pair(rnd, kind, dict_input, requires_labels, labelset):
         s = sum(p)
         return rnd.choice(labelset), {k: v / s for k, v in zip(labs, p)}
     if kind == "bin":
-        return rnd.choice([False, True]), {"output": rnd.choice([False, True]) if requires_labels else rnd.random()}
+        return rnd.choice(labelset), {"output": rnd.choice(labelset) if requires_labels else rnd.random()}
     return rnd.choice(labelset), {"output": rnd.choice(labelset)}
 
 
@@ -55,13 +65,14 @@ def main(run):
     from ixai.explainer import IncrementalPFI, IncrementalSage
     run.rule = ("every river.metrics class constructible with defaults and accepted by validate_loss_function (rejected ones listed "
                 "in notes); per metric a history of type-appropriate (y_true, y_pred) calls issued through 1-3 loss wrappers and an "
-                "explainer SHARING one metric object in random interleaving; after every call the returned value must equal "
+                "explainer SHARING one metric object in random interleaving; the label alphabet of classification streams alternates per stretch of calls between booleans / the metric's own and wider legal codings ({-1,1}, {1,2}, {0,2}, strings incl. the empty one, floats, NumPy integers), also for metrics sharing a confusion matrix and (numeric codings) the explainer route; after every call the returned value must equal "
                 "sign * (fresh metric after that single pair) (NaN-aware, 1e-9) and metric.get() its value before the first call; a "
                 "confident predictions (exact 0/1, probabilities down to 1e-300); the metric handed to a static IncrementalSage with loss_bigger_is_better off / on (flag off: model_loss must be the running mean of the fresh-metric, smaller-is-better losses; flag on: the importance values must equal those of the twin without the flag on the same stream and seeds); groups of 2-3 metrics sharing one confusion matrix (cm=) each used as a loss; recording subclass of the metric observes whether scalars ('output' entry) or the whole dict reached it; "
                 "evaluations = loss calls judged; non-trivial = distinct (metric, y_true, y_pred) with a non-zero loss")
     run.assumptions = ["the shared metric is touched only through the loss wrappers / explainers",
                        "fresh-metric semantics: a new instance of the same class with default arguments"]
-    run.require_count("eval:explainer-route")
+    run.require_count("eval:explainer-route", "labels:binary-beyond-bool", "labels:multiclass-wide", "labels:shared-cm-beyond-bool",
+                      "labels:explainer-route-beyond-bool")
     run.require("ixai/utils/wrappers/river.py:RiverMetricToLossFunction.__call__",
                 "ixai/utils/validators/loss.py:validate_loss_function")
     rnd = random.Random(run.shard_seed)
@@ -110,6 +121,8 @@ def main(run):
         sign = -1.0 if getattr(m, "bigger_is_better", False) else 1.0
         requires_labels = getattr(m, "requires_labels", True)
         labelset = rnd.choice([[0, 1, 2], ["a", "b", "c"], [0, 1]])
+        home_labels = [False, True] if (kind == "bin" and not dict_input) else labelset
+        wide = BIN_ALPHABETS if kind == "bin" else MULTI_ALPHABETS
         wrappers = [lf] + [validate_loss_function(m) for _ in range(rnd.choice([0, 1, 2]))]
         before = m.get()
         clones = []
@@ -127,7 +140,14 @@ def main(run):
         ncalls = CALLS[run.tier] if idx % 6 != 2 else max(CALLS[run.tier], 2300)      # some histories beyond 1024 / 2048 calls
         ok = True
         for i in range(ncalls):
-            yt, yp = gen_pair(rnd, kind, dict_input, requires_labels, labelset)
+            # the label alphabet of the stream changes from stretch to stretch: the metric's original alphabet alternates with the wider
+            # ones ({-1, 1}, {1, 2}, strings, floats, NumPy integers, ...), every metric walks through all of them
+            stretch = i // STRETCH
+            if kind == "reg" or stretch % 2 == 0:
+                alpha_name, labels_now = None, home_labels
+            else:
+                alpha_name, labels_now = wide[(idx + stretch // 2) % len(wide)]
+            yt, yp = gen_pair(rnd, kind, dict_input, requires_labels, labels_now)
             if rnd.random() < 0.15:        # targets taken from NumPy arrays: integer counts, booleans, float32 measurements
                 if kind == "reg" and isinstance(yt, float) and math.isfinite(yt) and abs(yt) < 1e6:
                     yt = rnd.choice([np.int64(int(yt) + 1), np.float32(yt), np.float64(yt), np.int32(int(yt) + 2)])
@@ -213,7 +233,10 @@ def main(run):
                 ok = False
                 break
             run.ok(kind="dict-metric" if dict_input else "scalar-metric")
-            replay = {"metric": name, "call": i, "y_true": yt, "y_pred": yp, "wrappers_sharing": len(wrappers)}
+            if alpha_name is not None:
+                run.count("labels:binary-beyond-bool" if kind == "bin" else "labels:multiclass-wide")
+                run.count(f"labels:{kind}:{alpha_name}")
+            replay = {"metric": name, "call": i, "y_true": yt, "y_pred": yp, "wrappers_sharing": len(wrappers), "label_alphabet": alpha_name}
             if isinstance(got, float) and not math.isfinite(got):
                 run.count("non-finite-loss-pairs")
             if not same(got, exp):
@@ -350,6 +373,9 @@ def main(run):
         if rep % nsh != sh or len(cm_classes) < 2:
             continue
         chosen = rnd.sample(cm_classes, rnd.choice([2, 2, 3]))
+        bin_cm = [n_ for n_ in cm_classes if issubclass(getattr(M, n_), BinaryMetric)]
+        if rep % 3 != 0 and bin_cm and not any(n_ in bin_cm for n_ in chosen):      # two groups in three contain a binary metric
+            chosen[0] = rnd.choice(bin_cm)
         cm = M.ConfusionMatrix()
         objs, losses, befores = [], [], []
         okc = True
@@ -373,14 +399,17 @@ def main(run):
                                                       f"{befores[j]!r}, a fresh metric reports {fresh0[j]!r}", {"metrics": chosen, "shared_cm": True})
                 okc = False
         labelset = rnd.choice([[0, 1, 2], ["a", "b", "c"], [0, 1], [False, True]])
+        bin_name, bin_labels = (None, [False, True]) if rep % 3 == 0 else BIN_ALPHABETS[(rep + run.seed) % len(BIN_ALPHABETS)]
         for i in range(120 if okc else 0):
             j = rnd.randrange(len(chosen))
             n_, o, l_ = chosen[j], objs[j], losses[j]
             dict_input = bool(getattr(l_, "_dict_input_metric", False))
             kind = "bin" if isinstance(o, BinaryMetric) else "multi"
-            labs = [False, True] if kind == "bin" else labelset
+            labs = bin_labels if kind == "bin" else labelset
             yt = rnd.choice(labs)
             yp = {"output": rnd.choice(labs)}
+            if kind == "bin" and bin_name is not None:
+                run.count("labels:shared-cm-beyond-bool")
             try:
                 fresh = getattr(M, n_)()
                 fresh.update(yt, yp["output"])
@@ -413,6 +442,9 @@ def main(run):
         if rep % nsh != sh or mname not in accepted:
             continue
         twin_importances = {}
+        # the (negative, positive) labels of the binary stream: booleans, or another legal coding of the two classes
+        neg_pos = [(False, True), (-1, 1), (1, 2), ("a", "b"), (0, 1), (0, 2), (0.0, 1.0), ("", "x")][(rep // 3) % 8]
+        beyond_bool = (rep // 3) % 8 != 0
         for lbib in (False, True):
             metric = getattr(M, mname)()
             sign = -1.0 if getattr(metric, "bigger_is_better", False) else 1.0
@@ -420,11 +452,11 @@ def main(run):
             random.seed(rep); np.random.seed(rep)
             fnames = ["a", "b"]
 
-            def model(x, _k=mkind):
+            def model(x, _k=mkind, _np=neg_pos):
                 if _k == "reg":
                     return {"output": 0.5 * x["a"] - x["b"]}
                 if _k == "bin":
-                    return {"output": bool(x["a"] > 0.4)}
+                    return {"output": _np[int(x["a"] > 0.4)]}
                 return {"output": int(x["a"] > 0.4) + int(x["b"] > 0.7)}
             try:
                 e = IncrementalSage(model, metric, fnames, loss_bigger_is_better=lbib, dynamic_setting=False, n_inner_samples=1)
@@ -440,7 +472,9 @@ def main(run):
                 if mkind == "reg":
                     y = pred + rs.choice([0.0, 0.25, -1.0, 2.0])
                 elif mkind == "bin":
-                    y = pred if rs.random() < 0.6 else (not pred)
+                    y = pred if rs.random() < 0.6 else neg_pos[1 - neg_pos.index(pred)]
+                    if beyond_bool:
+                        run.count("labels:explainer-route-beyond-bool")
                 else:
                     y = pred if rs.random() < 0.6 else (pred + 1) % 3
                 try:
